@@ -151,7 +151,7 @@ package zerolog
 //@   requires e != nil ==> eventbuf(e.buf)
 //@   ensures e == nil ==> err == nil && ncalls(LevelWriter.WriteLevel) == old(ncalls(LevelWriter.WriteLevel)) && ncalls(putEvent) == old(ncalls(putEvent))
 //@   ensures [C03,C04] e != nil && old(e.level) != Disabled && old(e.w) != nil ==> ncalls(LevelWriter.WriteLevel) == old(ncalls(LevelWriter.WriteLevel)) + 1 && callarg(LevelWriter.WriteLevel, old(ncalls(LevelWriter.WriteLevel)), 0) == old(e.w) && callarg(LevelWriter.WriteLevel, old(ncalls(LevelWriter.WriteLevel)), 1) == old(e.level) && err == callres(LevelWriter.WriteLevel, old(ncalls(LevelWriter.WriteLevel)), 1)
-//@   ensures [C01,C03] e != nil && old(e.level) != Disabled && old(e.w) != nil ==> lex(callarg(LevelWriter.WriteLevel, old(ncalls(LevelWriter.WriteLevel)), 2)) == 0 && mode(callarg(LevelWriter.WriteLevel, old(ncalls(LevelWriter.WriteLevel)), 2)) == DONE_NL && stk(callarg(LevelWriter.WriteLevel, old(ncalls(LevelWriter.WriteLevel)), 2)) == STK_EMPTY && prefix(callarg(LevelWriter.WriteLevel, old(ncalls(LevelWriter.WriteLevel)), 2), old(e.buf)) && len(callarg(LevelWriter.WriteLevel, old(ncalls(LevelWriter.WriteLevel)), 2)) == len(old(e.buf)) + 2
+//@   ensures [C01,C03] e != nil && old(e.level) != Disabled && old(e.w) != nil ==> eventdone(callarg(LevelWriter.WriteLevel, old(ncalls(LevelWriter.WriteLevel)), 2)) && prefix(callarg(LevelWriter.WriteLevel, old(ncalls(LevelWriter.WriteLevel)), 2), old(e.buf)) && len(callarg(LevelWriter.WriteLevel, old(ncalls(LevelWriter.WriteLevel)), 2)) == len(old(e.buf)) + framebytes()
 //@   ensures [C03,C04] e != nil && (old(e.level) == Disabled || old(e.w) == nil) ==> ncalls(LevelWriter.WriteLevel) == old(ncalls(LevelWriter.WriteLevel)) && err == nil
 //@   ensures [C06,C14] e != nil ==> ncalls(putEvent) == old(ncalls(putEvent)) + 1 && callarg(putEvent, old(ncalls(putEvent)), 0) == e
 //@   ensures e != nil ==> e.level == old(e.level)
@@ -317,7 +317,7 @@ package zerolog
 //@     invariant 0 <= rangeindex + 1 && rangeindex + 1 <= rangelen
 //@     invariant lex(dst) == 0 && stk(dst) == pushstk(AFTER_KEY, stk(dst0)) && prefix(dst, dst0) && len(dst) > len(dst0)
 //@     invariant rangeindex + 1 == 0 ==> mode(dst) == ARR_FIRST
-//@     invariant 0 < rangeindex + 1 && rangeindex + 1 < rangelen ==> mode(dst) == ARR_COMMA
+//@     invariant 0 < rangeindex + 1 && rangeindex + 1 < rangelen ==> mode(dst) == arrmid()
 //@     invariant 0 < rangeindex + 1 && rangeindex + 1 == rangelen ==> mode(dst) == ARR_NEXT
 
 //@ func (*Array).Object(a, obj) res
